@@ -761,14 +761,7 @@ func c10R9(c *Ctx) {
 	}
 	idx := extractOf(runs[0].(*ssa.Call), 0)
 	perr := extractOf(runs[0].(*ssa.Call), 2)
-	idxIs := func(k int64, val bool) assumption {
-		return assumption{val: val, cmp: func(op token.Token, x, y ssa.Value) (bool, bool) {
-			if (op != token.EQL && op != token.NEQ) || !sameValue(x, idx) || !isConstIntV(k)(y) {
-				return false, false
-			}
-			return true, op == token.EQL
-		}}
-	}
+	isIdx := func(v ssa.Value) bool { return sameValue(v, idx) }
 	errIsNil := func(val bool) assumption {
 		return assumption{val: val, cmp: func(op token.Token, x, y ssa.Value) (bool, bool) {
 			if (op != token.EQL && op != token.NEQ) || !sameValue(x, perr) || !isNilConst(y) {
@@ -785,9 +778,9 @@ func c10R9(c *Ctx) {
 	}
 	for _, w := range []want{
 		{"prompt-failed", []assumption{errIsNil(false)}, true, -1},
-		{"continue", []assumption{errIsNil(true), idxIs(2, true), idxIs(0, false), idxIs(1, false)}, true, -1},
-		{"stop-keep", []assumption{errIsNil(true), idxIs(2, false), idxIs(0, true), idxIs(1, false)}, false, 0},
-		{"stop-delete", []assumption{errIsNil(true), idxIs(2, false), idxIs(0, false), idxIs(1, true)}, false, 1},
+		{"continue", []assumption{errIsNil(true), valueIs(isIdx, 2)}, true, -1},
+		{"stop-keep", []assumption{errIsNil(true), valueIs(isIdx, 0)}, false, 0},
+		{"stop-delete", []assumption{errIsNil(true), valueIs(isIdx, 1)}, false, 1},
 	} {
 		reach := blocksUnder(g, w.as)
 		gotResume, gotStop := false, -1
